@@ -56,6 +56,15 @@ fn corrupt_structured(r: &Replay, rng: &mut Rng, kind: u64) -> (Vec<u8>, String)
             for e in body.iter_mut() { if e[0] == code { any = true; e.resize(1 + size as usize, 0x5a); } }
             if !any { let i = pick(rng, body.len() + 1); let mut e = vec![code]; e.extend(rng.bytes(size as usize)); if size >= 4 && rng.next() % 2 == 0 { let id = id_at(&body, i, &r); e[1..5].copy_from_slice(&id.to_be_bytes()); } body.insert(i, e); }
             "boundary-size-for-known-code" }
+        17 => { // one more complete split message (1-3 blocks) somewhere after the first: a second Gecko list, a frame event of the game re-sent
+            // inside blocks, an event the library does not know — the accumulators (buffer, running size) are shared by all messages
+            if !sizes.iter().any(|s| s.0 == 0x10) { sizes.push((0x10, 516)); }
+            if !sizes.iter().any(|s| s.0 == 0x3D) { sizes.push((0x3D, 300)); }
+            let nb = 1 + (rng.next() % 3) as usize; let code = [0x3Du8, 0x37, 0x38, 0x3B, 0x50, 0x3D][(rng.next() % 6) as usize];
+            let i = pick(rng, body.len() + 1); let mut blocks = vec![];
+            for bi in 0..nb { let mut ev = vec![0x10u8]; let mut data = rng.bytes(512); if bi == 0 && matches!(code, 0x37 | 0x38 | 0x3B) { let id = id_at(&body, i, &r); data[..4].copy_from_slice(&id.to_be_bytes()); data[4] = 0; data[5] = 0; }
+                ev.extend(data); let actual: u16 = if bi + 1 == nb { [300u16, 512, 257, 1][(rng.next() % 4) as usize] } else { 512 }; ev.extend(actual.to_be_bytes()); ev.push(code); ev.push((bi + 1 == nb) as u8); blocks.push(ev); }
+            body.splice(i..i, blocks); "second-split-message" }
         _ => { if let Some(f) = r.frames.first_mut() { f.id = [i32::MAX, i32::MIN, -124, 0][(rng.next() % 4) as usize]; } body = body_events(&r, &pad); "extreme-first-id" }
     };
     let mut out = assemble(&r, &sizes, &body, &junk, &pad);
@@ -95,8 +104,8 @@ fn incremental(b: &[u8]) -> Result<String, String> {
 fn mal(rng: &mut Rng, ctx: &mut Ctx) {
     let go = GenOpts { max_frames: 5, newer: false, force: None };
     for k in 0..ctx.n {
-        // structured corruptions walk the 17 kinds; events illegal for the version get every framing regime in turn
-        let kind = if k % 4 == 1 { 6 } else if k % 8 == 3 { 16 } else { rng.next() % 17 };
+        // structured corruptions walk the 18 kinds; events illegal for the version get every framing regime in turn
+        let kind = if k % 4 == 1 { 6 } else if k % 8 == 3 { 16 } else if k % 16 == 7 { 17 } else { rng.next() % 18 };
         let go = if kind == 6 { GenOpts { max_frames: 4, newer: false, force: Some([(1u8,0u8,0u8),(2,1,0),(2,2,0),(2,255,3),(3,0,0),(3,6,0),(0,1,0),(2,5,0)][(k / 4) % 8]) } } else { GenOpts { max_frames: 5, newer: false, force: None } };
         let (r, tags) = gen_replay(rng, k, &go);
         let (b, kind) = if k % 3 == 0 && kind != 6 { let b = encode(&r); corrupt_bytes(&b, rng) } else { corrupt_structured(&r, rng, kind) };
@@ -282,6 +291,7 @@ fn irr(rng: &mut Rng, ctx: &mut Ctx) {
             if g.metadata != bg.metadata { c.fail("C16", "the metadata element read from a file with tolerated irregularities (unknown events, bytes after Game End) differs from the one read without them"); } }
         // bytes after Game End sit right in front of the metadata element: a reader that loses its place there loses the metadata
         if g.is_none() && bg.is_some() && !junk.is_empty() { c.fail("C16", format!("the metadata element behind {} bytes after Game End is not reached: {}", junk.len(), &l0[..l0.len().min(100)])); }
+        if l0 == "panic" { c.fail("C06", "the reader panics on a replay with tolerated irregularities (unknown events, split messages, bytes after Game End)"); }
         // the history-based frame oracle (spec offsets, presence, rows per frame) holds of the irregular file as of the regular one
         if let Some(g) = &g { check_frames(&r, g, &mut c); }
         ctx.push(c);
